@@ -524,6 +524,21 @@ def translate(repo=REPO):
         tm = HEADER_TM.format(sha=sha) + "\n".join(tm_parts) + "\nend GenLD\n"
     except (Unsupported, KeyError) as ex:
         errors["choose_random/random_removal (tape version)"] = f"unsupported: {ex}"
+    # `update_total_weight`: self._total_weight = sum(self.weight[item] for item in self.items)
+    try:
+        n = methods["update_total_weight"]
+        got = [ast.unparse(x) for x in n.body if not (isinstance(x, ast.Expr) and isinstance(x.value, ast.Constant))]
+        if got != ["self._total_weight = sum((self.weight[item] for item in self.items))"]:
+            raise Unsupported("update_total_weight changed: %r" % got)
+        out.append(f"/-- generated from `{CLASS}.update_total_weight` (EoN/simulation.py:{n.lineno}); reading `self.weight[item]` on the\n"
+                   "defaultdict inserts missing keys with 0 -/\n"
+                   "def update_total_weight (s : PyLD α) : Except String (PyLD α) := do\n"
+                   "  let s := s.items.foldl (fun (s : PyLD α) item => { s with weight := PyRT.ddTouch s.weight item }) s\n"
+                   "  pure { s with total_weight_ := sumRat (s.items.map (fun item => alGet s.weight (0 : Rat) item)) }\n")
+        sources.append(ast.unparse(n))
+    except (Unsupported, KeyError) as ex:
+        errors["update_total_weight"] = f"unsupported: {ex}"
+    sha = hashlib.sha1("\n".join(sources).encode()).hexdigest()
     translate.tm_text = tm
     return HEADER.format(sha=sha, fields=fields, cls=CLASS) + "\n".join(out) + "\nend GenLD\n", errors
 
